@@ -1040,7 +1040,7 @@ fn run_parent(seed: u64, tier: Tier, runs: u64, workers: usize, want_log_hash: b
     let cli_trials: u64 = std::env::var("ALLOCSIM_CLI_TRIALS")
         .ok()
         .and_then(|s| s.parse().ok())
-        .unwrap_or(if tier == Tier::Thorough { 200_000 } else { 0 })
+        .unwrap_or(if tier == Tier::Thorough { 60_000 } else { 0 })
         .min(runs);
     let mut cli_classes: BTreeMap<String, u64> = BTreeMap::new();
     let mut cli_violations: Vec<(u64, Failure)> = Vec::new();
@@ -1388,7 +1388,7 @@ fn main() {
     let seed = get("--seed").and_then(|s| s.parse().ok()).unwrap_or_else(env_seed);
     let runs = get("--runs").and_then(|s| s.parse().ok()).unwrap_or(match tier {
         Tier::Quick => 120_000,
-        Tier::Thorough => 4_000_000,
+        Tier::Thorough => 3_000_000,
     });
     let workers = get("--workers")
         .and_then(|s| s.parse().ok())
